@@ -194,7 +194,7 @@ def _core_cases():
                 n += 1
                 yield {'kind': 'core', 'n': n, 'mode': 'keep' if n % 11 == 0 else 'normal',
                        'initial': {'VC': 'c0'}, 'items': _number(_with_probes_everywhere(placed, n)),
-                       'act': {'ccd': '/' if n % 3 == 0 else None}}
+                       'act': {'ccd': '/' if n % 3 == 0 else None, 'tr': n % 4 == 1}}
 
 
 def _number(items):
@@ -326,7 +326,7 @@ def _seeded_case(rng, n):
         items.append(['cleanup', _rnd_probe(rng)])
     initial = {'VC': rng.choice(['c0', '', 'in it'])} if rng.random() < 0.8 else {}
     return {'kind': 'rnd', 'n': n, 'mode': 'keep' if rng.random() < 0.1 else 'normal', 'initial': initial,
-            'items': _number(items), 'act': {'ccd': rng.choice([None, None, '/', '..'])}}
+            'items': _number(items), 'act': {'ccd': rng.choice([None, None, '/', '..']), 'tr': rng.random() < 0.3}}
 
 
 _ZERO_VALUES = ['0', '1-1', "'0'", '00', '-0']
@@ -379,7 +379,7 @@ def _rescan_cases():
                 continue
             n += 1
             yield {'kind': 'core', 'n': n, 'mode': 'normal', 'initial': {'VC': 'c0'},
-                   'items': _number(_with_probes_everywhere(placed, n)), 'act': {'ccd': None}}
+                   'items': _number(_with_probes_everywhere(placed, n)), 'act': {'ccd': None, 'tr': n % 3 == 2}}
 
 
 def cases(tier, seed):
@@ -456,6 +456,9 @@ def render_case(case, probe_path, out_file):
                 syms.append(ins['name'])
         if ph == 'setup':
             act_line = _probe_words('act', case['act'].get('ccd'), None, probe_path, out_file, syms)
+            if case['act'].get('tr'):
+                # the action given with a transformation of its output: the same process, the same environment
+                act_line += '\n  -transformed-by ' + ('identity', 'char-case -to-upper', '( strip | identity )')[len(body) % 3]
         if body:
             lines.append('[%s]' % ph)
             lines.extend(body)
